@@ -101,7 +101,8 @@ def tensor_repr(t, reg: Registry, with_bytes=False):
 def meta_repr(obj):
     try:
         m = obj.meta
-        return tuple(sorted((str(k), repr(v)) for k, v in m.items()))
+        keys = sorted(set(map(str, m.keys())) | set(map(str, getattr(m, "_invalid_keys", ()))))
+        return tuple((k, repr(m.get(k)), m.is_valid(k)) for k in keys)
     except Exception:  # noqa: BLE001
         return ()
 
